@@ -11,7 +11,7 @@ import random
 from hypothesis import strategies as st
 
 from ..runner import Failure, Result, run_hypothesis, exc_signature, CallBudget, RunawayError
-from .. import simrun, oracles
+from .. import simrun, oracles, gen
 
 ID = 'C10'
 LEVEL = 'exploration'
@@ -131,8 +131,9 @@ def prop_case(case):
                 fails.append(Failure('%s:get_statuses' % sim, 'get_statuses(time=%r): node %r -> %r, latest change at or before that time gives %r (history %r)'
                                      % (q, bad[0][0], bad[0][1], bad[0][2], hist[bad[0][0]])))
                 break
-            u = nodes[rnd.randrange(len(nodes))]
-            if full.node_status(u, q) != naive_status(hist[u], q):
+            bad = [u for u in nodes if full.node_status(u, q) != naive_status(hist[u], q)]
+            if bad:
+                u = bad[0]
                 fails.append(Failure('%s:node_status' % sim, 'node_status(%r, %r)=%r, history %r' % (u, q, full.node_status(u, q), hist[u])))
                 break
         except Exception as e:
@@ -241,7 +242,91 @@ def prop_discrete_table(case):
     return Result(fails, nontrivial=bool(durations) or bool(R0), classes=['discrete-table'] + (['test_recovery'] if durations else []))
 
 
+# ---------------------------------------------------------------------------
+# constructed histories: the accessors of Simulation_Investigation on generated node histories (ties included)
+# ---------------------------------------------------------------------------
+
+@st.composite
+def history_case(draw):
+    gc = draw(gen.graph_case(1, 8, labels=('int', 'perm', 'str', 'tuple'), weighted=False))
+    kind = draw(st.sampled_from(['SIR', 'SIS', 'SEIR']))
+    moves = {'SIR': {'S': 'I', 'I': 'R'}, 'SIS': {'S': 'I', 'I': 'S'}, 'SEIR': {'S': 'E', 'E': 'I', 'I': 'R'}}[kind]
+    tmin = draw(st.sampled_from([0, 0, -2.5, 3]))
+    hist = []
+    for _ in gc['nodes']:
+        s = draw(st.sampled_from(sorted(set(moves) | set(moves.values()))))
+        ts, ss, t = [tmin], [s], tmin
+        for _k in range(draw(st.integers(0, 5))):
+            if ss[-1] not in moves:
+                break
+            t = t + draw(st.sampled_from([0, 0, 0.25, 0.5, 1.0, 1.5]))      # 0: two changes at one instant
+            ts.append(t); ss.append(moves[ss[-1]])
+        hist.append([ts, ss])
+    return {'gc': gc, 'kind': kind, 'tmin': tmin, 'hist': hist, 'array_times': draw(st.booleans()),
+            'q': [draw(st.sampled_from([0, 0.25, 0.5, 0.75, 1.0, 1.5, 2.0, 2.25, 4.0, 9.0])) for _ in range(4)],
+            'subset': draw(st.integers(0, 2 ** 8 - 1))}
+
+
+def prop_history(case):
+    import EoN
+    import numpy as np
+    G = oracles.build_graph(case['gc'])
+    nodes = [oracles.tolabel(u) for u in case['gc']['nodes']]
+    sts = {'SIR': ['S', 'I', 'R'], 'SIS': ['S', 'I'], 'SEIR': ['S', 'E', 'I', 'R']}[case['kind']]
+    hist = {u: (list(h[0]), list(h[1])) for u, h in zip(nodes, case['hist'])}
+    given = {u: ((np.array(h[0], dtype=float) if case['array_times'] else list(h[0])), list(h[1])) for u, h in hist.items()}
+    tmin = case['tmin']
+    fails = []
+    try:
+        inv = EoN.Simulation_Investigation(G, given, transmissions=[], possible_statuses=sts)
+        change_times = sorted(set(a for u in nodes for a in hist[u][0]))
+        qs = sorted(set([tmin] + [tmin + q for q in case['q']] + change_times + [a + 0.125 for a in change_times]))
+        for q in qs:
+            bad = [u for u in nodes if inv.node_status(u, q) != naive_status(hist[u], q)]
+            if bad:
+                fails.append(Failure('constructed:node_status', 'node_status(%r, %r)=%r; history %r' % (bad[0], q, inv.node_status(bad[0], q), hist[bad[0]])))
+                break
+            stt = inv.get_statuses(nodes, q)
+            bad = [u for u in nodes if stt[u] != naive_status(hist[u], q)]
+            if bad:
+                fails.append(Failure('constructed:get_statuses', 'get_statuses(time=%r)[%r]=%r; history %r' % (q, bad[0], stt[bad[0]], hist[bad[0]])))
+                break
+        for label, subset in (('all', None), ('subset', [u for i, u in enumerate(nodes) if (case['subset'] >> i) & 1] or nodes[:1])):
+            t, D = inv.summary(subset) if subset is not None else inv.summary()
+            sub = subset if subset is not None else nodes
+            t = [float(x) for x in t]
+            if not t or t[0] != tmin or any(b <= a for a, b in zip(t, t[1:])):
+                fails.append(Failure('constructed:summary-times:%s' % label, 'summary times %r (tmin=%r)' % (t[:10], tmin)))
+                continue
+            want_times = sorted(set(a for u in sub for a in hist[u][0]))
+            need = [a for i, a in enumerate(want_times) if i == 0 or
+                    any(naive_status(hist[u], a) != naive_status(hist[u], want_times[i - 1]) for u in sub)]
+            if any(a not in t for a in need) or any(a not in want_times for a in t):
+                fails.append(Failure('constructed:summary-time-set:%s' % label, 'summary times %r; change times of the nodes %r' % (t[:10], want_times[:10])))
+                continue
+            for i, a in enumerate(t):
+                want = {s_: sum(1 for u in sub if naive_status(hist[u], a) == s_) for s_ in sts}
+                got = {s_: int(D[s_][i]) for s_ in sts}
+                if got != want:
+                    fails.append(Failure('constructed:summary-counts:%s' % label, 'summary row at t=%r is %r; counting the histories gives %r' % (a, got, want)))
+                    break
+        tt = [float(x) for x in inv.t()]
+        tf, Df = inv.summary()
+        if tt != [float(x) for x in tf]:
+            fails.append(Failure('constructed:t()-vs-summary', 't() = %r, summary()[0] = %r' % (tt[:8], list(tf)[:8])))
+        for s_, fn in (('S', inv.S), ('I', inv.I), ('R', inv.R)):
+            if s_ in sts and [int(x) for x in fn()] != [int(x) for x in Df[s_]]:
+                fails.append(Failure('constructed:%s()-vs-summary' % s_, '%s() differs from summary()' % s_))
+    except Exception as e:
+        fails.append(Failure('constructed:exception:%s' % exc_signature(e), 'raised %r' % (e,)))
+    ties = any(any(a == b for a, b in zip(h[0], h[0][1:])) for h in hist.values())
+    return Result(fails, nontrivial=any(len(h[0]) >= 2 for h in hist.values()),
+                  classes=[case['kind']] + (['two-changes-at-one-instant'] if ties else []) + (['tmin!=0'] if tmin != 0 else []))
+
+
 def replay(ctx, sub, case):
+    if sub == 'constructed':
+        return prop_history(case).failures
     if sub == 'discrete-table':
         return prop_discrete_table(case).failures
     return prop_case(case).failures
@@ -260,3 +345,4 @@ def run(ctx):
         run_hypothesis(ctx, 'modes', c10_case(sim), prop_case, 100 if quick else 4000, rounds=3)
     from . import c12
     run_hypothesis(ctx, 'discrete-table', c12.table_case(), prop_discrete_table, 400 if quick else 10000)
+    run_hypothesis(ctx, 'constructed', history_case(), prop_history, 600 if quick else 20000, rounds=2)
